@@ -26,6 +26,11 @@ pub mod p_compress;
 pub mod p_rename;
 pub mod p_view;
 pub mod p_mutate;
+pub mod p_text;
+pub mod p_synth;
+pub mod p_cabi;
+pub mod p_pure;
+pub mod p_size;
 pub mod rn_gen;
 
 #[macro_use]
